@@ -27,6 +27,7 @@ import (
 	"github.com/formancehq/ledger/internal/engine/command"
 	"github.com/formancehq/ledger/verifharness/sched"
 	"github.com/formancehq/ledger/verifharness/tlaio"
+	"github.com/formancehq/stack/libs/go-libs/logging"
 )
 
 type reqState struct {
@@ -298,6 +299,24 @@ func replay(path string, w *tlaio.Writer, st *stats, repeat int) error {
 	return nil
 }
 
+// slowLogger stands in for the request's logger in free-running executions: the locker logs between deciding that a
+// request must wait and queueing it, and a real logger takes its time there. Nothing else is logged.
+type slowLogger struct{}
+
+func (slowLogger) Debugf(f string, args ...any) {
+	if len(f) >= 17 && f[:17] == "Lock not acquired" {
+		time.Sleep(time.Duration(rand.Intn(300)) * time.Microsecond)
+	}
+}
+func (slowLogger) Infof(string, ...any)                         {}
+func (slowLogger) Errorf(string, ...any)                        {}
+func (slowLogger) Debug(...any)                                 {}
+func (slowLogger) Info(...any)                                  {}
+func (slowLogger) Error(...any)                                 {}
+func (l slowLogger) WithFields(map[string]any) logging.Logger   { return l }
+func (l slowLogger) WithField(string, any) logging.Logger       { return l }
+func (l slowLogger) WithContext(context.Context) logging.Logger { return l }
+
 // free-running driver: n goroutines, random populations, real Go scheduling.
 // The trace is the sequence of hook notes (ordered under the locker mutex).
 func freeRun(w *tlaio.Writer, st *stats, seed int64, nreq int, accts []string) {
@@ -344,7 +363,7 @@ func freeRun(w *tlaio.Writer, st *stats, seed int64, nreq int, accts []string) {
 		wg.Add(1)
 		go func() {
 			defer wg.Done()
-			ctx, cancel := context.WithCancel(sched.WithProc(context.Background(), id))
+			ctx, cancel := context.WithCancel(logging.ContextWithLogger(sched.WithProc(context.Background(), id), slowLogger{}))
 			defer cancel()
 			time.Sleep(start)
 			if cancelAfter >= 0 {
@@ -376,6 +395,12 @@ func freeRun(w *tlaio.Writer, st *stats, seed int64, nreq int, accts []string) {
 	byInt := map[any]string{}
 	evs := s.Events()
 	consumed := map[int]bool{}
+	for _, e := range evs {
+		// which request an intent belongs to does not depend on the order the notes were recorded in
+		if e.Point == "lock.enqueued" {
+			byInt[e.KV["intent"]] = e.Proc
+		}
+	}
 	for i := 0; i < len(evs); i++ {
 		e := evs[i]
 		if consumed[i] {
@@ -477,6 +502,11 @@ func main() {
 	}
 	for i := 0; i < *free; i++ {
 		freeRun(fw, st, *seed*100003+int64(i), *freeReqs, []string{"a", "b", "c"})
+	}
+	// pairs on one account: when the holder releases while the other request is on its way into the queue, nobody is
+	// left to release after it, so a request that was not granted then stays ungranted (and is reported as hung)
+	for i := 0; i < 2**free; i++ {
+		freeRun(fw, st, *seed*100019+int64(i), 2, []string{"a"})
 	}
 	_ = fw.Close()
 	if err := tlaio.WriteJSON(filepath.Join(*out, "stats.json"), st); err != nil {
